@@ -28,7 +28,7 @@ func (c14) NumCases(tier string) int {
 }
 
 func (c14) Rule() string {
-	return "positive: well-typed statements from the typed grammar (documented typing table) must be accepted, and executing them in row and batch mode on conforming stores must not fail (the generator excludes by construction the data-dependent failures the engine legitimately reports: zero divisors, bad patterns, reversed bounds, unequal vector lengths, dynamically typed JSON members); negative: every single-fault mutant - an operator applied to unsupported operand types, a non-Boolean WHERE or ! operand, key/value where the statement form forbids them, an unknown function, an argument count off by one, a constant aggregate parameter of the wrong type - with the fault placed at top level, under !, inside a call argument, below a (cascaded) field access, in an operand that constant folding removes, an IN item, a BETWEEN bound, a select field, an aggregate argument, or a PUT/REMOVE/DELETE expression must make BuildPlan return an error with an empty storage log whatever the store holds. Non-trivial: every generated statement; distinct by statement text."
+	return "positive: well-typed statements from the typed grammar (documented typing table) must be accepted, and executing them in row and batch mode on conforming stores must not fail (the generator excludes by construction the data-dependent failures the engine legitimately reports: zero divisors, bad patterns, reversed bounds, unequal vector lengths, dynamically typed JSON members); negative: every single-fault mutant - an operator applied to unsupported operand types, a non-Boolean WHERE or ! operand, key/value where the statement form forbids them, an unknown function, an argument count off by one, a constant aggregate parameter of the wrong type - with the fault placed at top level, under !, inside a call argument, below a (cascaded) field access, in an operand that constant folding removes, through a name carried by two fields of different types (the first decides), an IN item, a BETWEEN bound, a select field, an aggregate argument, or a PUT/REMOVE/DELETE expression must make BuildPlan return an error with an empty storage log whatever the store holds. Non-trivial: every generated statement; distinct by statement text."
 }
 
 func (c14) Assumptions() []string {
@@ -40,7 +40,7 @@ func (c14) Gates(tier string, m map[string]int64) []rt.Gate {
 	for _, f := range []string{"operand-type", "non-boolean-where", "non-boolean-not", "forbidden-keyword", "unknown-function", "arity"} {
 		gs = append(gs, rt.GateMin("fault kind "+f, m, "fault:"+f, 50))
 	}
-	for _, p := range []string{"top", "under-not", "call-arg", "in-item", "between-bound", "select-field", "aggregate-arg", "put", "remove", "delete", "and-or-operand", "under-index", "folded-away-operand"} {
+	for _, p := range []string{"top", "under-not", "call-arg", "in-item", "between-bound", "select-field", "aggregate-arg", "put", "remove", "delete", "and-or-operand", "under-index", "folded-away-operand", "duplicate-name"} {
 		gs = append(gs, rt.GateMin("fault position "+p, m, "pos:"+p, 20))
 	}
 	return gs
@@ -145,6 +145,17 @@ func (k c14) positive(c *rt.Ctx, st *gen.Store) {
 	g.RefBias = r.Intn(3)
 	stmt := g.Any(r.Range(1, 3))
 	q := stmt.Text(gen.Style{Paren: []int{0, 1, 3}[r.Intn(3)], R: r.Fork(), Case: r.Chance(1, 4)})
+	if r.Chance(1, 15) {
+		// two fields under one name, of different types: the name means the FIRST field, so
+		// these are well-typed
+		q = []string{
+			"select strlen(key) as v, upper(key) as v where v > 1",
+			"select strlen(value) as n, key as n, value where n * 2 >= 0 & key != 'zz'",
+			"select upper(key) as t, strlen(key) as t where t ^= 'K' | t != ''",
+			"select key, strlen(key) + 1 as w, lower(value) as w where w between 0 and 100",
+		}[r.Intn(4)]
+		rec.Inc("duplicate_name_first_field_decides")
+	}
 	rec.DistinctS(q)
 	for _, m := range []drive.Mode{{Batch: false, Size: pickBatch(c), Cache: true}, {Batch: true, Size: pickBatch(c), Cache: true}} {
 		o := drive.Run(q, refstore.New(st.Pairs), m)
@@ -191,7 +202,7 @@ func (k c14) negative(c *rt.Ctx, st *gen.Store) {
 	g.NoAlias = true
 	K, V := gen.Key, gen.Value
 	var q, fault, pos string
-	place := r.Intn(17)
+	place := r.Intn(18)
 	sel := func(field, where string) string { return "select " + field + " where " + where }
 	switch place {
 	case 0: // top: non-Boolean WHERE
@@ -343,6 +354,15 @@ func (k c14) negative(c *rt.Ctx, st *gen.Store) {
 			q = "select key as k1, upper(join('-', k1, " + fn + ")) as u where true"
 		}
 		fault, pos = f, "call-arg"
+	case 16: // the name of two fields of different types means the first one
+		q = []string{
+			"select upper(key) as v, strlen(key) as v where v > 1",
+			"select key as n, strlen(value) as n, value where n * 2 >= 0",
+			"select strlen(key) as t, upper(key) as t where t ^= 'K'",
+			"select key, lower(value) as w, strlen(key) + 1 as w where !(w between 0 and 100)",
+			"select lower(key) as w, strlen(key) as w, w + 1 as x where key ^= 'k'",
+		}[r.Intn(5)]
+		fault, pos = "operand-type", "duplicate-name"
 	case 15: // in an operand that constant folding removes (true | X, false & X)
 		bad := []string{"nosuch(key) = 'a'", "upper(key, 1) = 'A'", "strlen() > 1", "nosuch(1, 2) = 3", "is_int(value, 1)", "lower(nosuch2(value)) = 'a'"}[r.Intn(6)]
 		fault = "unknown-function"
